@@ -42,7 +42,8 @@ rc=$?
 fi
 grep -m3 -A2 '^VIOLATION' "$T/out.txt"
 tail -1 "$T/out.txt"
-record() { # keep the latest verdict per (mutant, property, tier)
+record() { # keep the latest verdict per (mutant, property, tier); only for the patches kept under mutants/
+  case "$PATCH" in */mutants/c[0-9][0-9]-*) ;; *) return 0;; esac
   local f=mutants/RESULTS.tsv key="$(basename "$PATCH")	$ID	$TIER"
   (
   flock 8
